@@ -31,6 +31,7 @@ Decides:
  C registry        short names inside adjacent groups reach the cluster registry, so `-x10` / `-ab` are split and the block is found (shared with C02).
  W nested windows  the hole test of ParseAdjacent::eval counts present items AFTER the window was clamped to the caller's scope; a command entered
                    inside a window gets name .. end of the ENCLOSING scope, never the end of the line (shared with C08).
+ L start widths    State::ranges: per variant of the group's first item the number of items a start position must have (argument 2, everything else 1).
 Does not decide: which vectors are accepted for a given shape (index arithmetic over run-time ledgers)."""
 import re
 from core import *
@@ -43,7 +44,7 @@ import scopes, c05, c08, c10, c01, consumers
 LEVEL = 'other'
 EXPLANATION = __doc__
 ASSUMPTIONS = ['the inner parser of a group consumes only through the State primitives (C05)']
-FLOORS = {'A.attempts': 5, 'W.window': 4, 'C.contiguous': 1, 'P.prefix': 2, 'S.adjacent_scope': 2, 'L.leftmost': 3, 'F.failfast': 1}
+FLOORS = {'A.attempts': 5, 'W.window': 4, 'C.contiguous': 1, 'P.prefix': 2, 'S.adjacent_scope': 2, 'L.leftmost': 8, 'F.failfast': 1}
 
 def run(ctx):
     cfgs = ['none', 'all'] if ctx.tier == 'quick' else ['none', 'all', 'ac', 'doc']
@@ -62,8 +63,11 @@ def run(ctx):
         ctx.guard(prefix, ctx, cfg, fs)
         ctx.guard(adjacent_scope, ctx, cfg, fs)
         ctx.guard(leftmost, ctx, cfg, fs)
+        ctx.guard(start_widths, ctx, cfg, fs)
         import consumers
-        ctx.guard(c08.keep_only, ctx, lambda: consumers.primitives(ctx, cfg, fs, 'W.window'), lambda o: o.key in ('get:guarded', 'ArgsIter::next:guarded'), 'W.window')
+        ctx.guard(c08.keep_only, ctx, lambda: consumers.primitives(ctx, cfg, fs, 'W.window'), lambda o: o.key in ('get:guarded', 'ArgsIter::next:guarded', 'set_scope:remaining-recount'), 'W.window')
+        # the "nothing left to try here" shortcut of the probe reads State::len(): conflicted items count as present (shared with C05)
+        ctx.guard(consumers.itemstate, ctx, cfg, fs, 'W.window')
         ctx.guard(c08.keep_only, ctx, lambda: c01.parsecon(ctx, cfg, fs), lambda o: 'adjacent:failfast' in o.key, 'F.failfast')
 
 def eval_scopes(b):
@@ -197,6 +201,33 @@ def window(ctx, cfg, fs):
         detail = 'taken on the edge where `window length > number of present items` (%s), before the attempt' % good
     ctx.ob('W.window', 'ParseAdjacent::eval:trim-when-holes', ok, 'ParseAdjacent::eval trims the window to the adjacent run: %s' % detail, where=b.where(trims[0].bb) if trims else b.where(), cfg=cfg)
 
+def start_widths(ctx, cfg, fs):
+    """ArgRangesIter stops offering start positions when `start + width` runs past the scope: width is how many items the group's FIRST
+    item needs at least.  Only a named argument needs two (name and value); flags, positionals, commands and `any` need one - a larger
+    number drops the last start positions (a block whose tag is the last word of the line is never tried).  Table, per variant of Item
+    (abstract walk of State::ranges under "the item is this variant")."""
+    from absint import Walker, UNKNOWN, show
+    b = ctx.look(fs.one(r'^args::inner::State::ranges$'))
+    item = [l for l, nm in b.local_names.items() if nm == 'item' and l <= b.arg_count]
+    if not item:
+        raise Broken('State::ranges: parameter `item` not found')
+    want = {'Any': '1', 'Positional': '1', 'Command': '1', 'Flag': '1', 'Argument': '2'}
+    ad = fs.adt('item::Item')
+    variants = [v['name'] for v in ad['variants']] if ad else list(want)
+    for v in variants:
+        outs = set()
+        for p_ in Walker(b, variant_of={(item[0], ()): v}, max_paths=100).run():
+            if p_.end != 'return': continue
+            r = p_.ret
+            w = [show(val) for (_, l, val) in p_.assigns if b.local_names.get(l) == 'width']
+            if r is not UNKNOWN and r[0] == 'agg' and len(r[3]) >= 2:
+                outs.add(show(r[3][1]))
+            elif w:
+                outs.add(w[-1])
+            else:
+                outs.add('?')
+        ctx.ob('L.leftmost', 'State::ranges:width:%s' % v, outs == {want.get(v, '1')}, 'State::ranges: a group that starts with Item::%s needs %s item(s) at its start position (expected %s)' % (v, sorted(outs), want.get(v, '1')), where=b.where(), cfg=cfg)
+
 def contiguous(ctx, cfg, fs):
     b = ctx.look(fs.one(r'^args::inner::State::adjacently_available_from$'))
     ok = False; how = 'not recognised'
@@ -279,7 +310,8 @@ def adjacent_scope(ctx, cfg, fs):
     zips = [c for c in b.calls() if c.is_(r'Iterator>?::zip$')]
     both = srcs >= {'self', 'original'} and len(zips) == 1
     # forward scan from the start of the scope
-    fwd = not any(c.is_(r'Iterator>?::(rev|next_back|rposition|rfind|last|max\w*|min\w*)$') for x in fs.family(b) for c in x.calls())
+    # ... from the very first item of the scope on (a command's scope starts AFTER its name: the first item is as foreign as any other)
+    fwd = not any(c.is_(r'Iterator>?::(rev|next_back|rposition|rfind|last|max\w*|min\w*|skip|skip_while|step_by|nth|advance_by)$') for x in fs.family(b) for c in x.calls())
     rngs = []
     for i, k, st in b.stmts():
         if st['k'] == 'assign' and st['rv']['k'] == 'agg' and 'Range' in st['rv'].get('adt', ''):
